@@ -647,9 +647,16 @@ func (r *Run) sessionScopedFields() {
 				continue
 			}
 			var sessField *types.Var
+			fields := []*types.Var{}
 			for i := 0; i < st.NumFields(); i++ {
-				if pt, ok := st.Field(i).Type().(*types.Pointer); ok && types.Identical(pt.Elem(), sessT.Type()) {
-					sessField = st.Field(i)
+				fields = append(fields, st.Field(i))
+			}
+			if nt, ok := tn.Type().(*types.Named); ok {
+				fields = r.P.deepFields(nt, 0) // (through embedded and by-value parts: a binding sub-struct shared by the modules)
+			}
+			for _, f := range fields {
+				if pt, ok := f.Type().(*types.Pointer); ok && types.Identical(pt.Elem(), sessT.Type()) {
+					sessField = f
 				}
 			}
 			if sessField == nil {
@@ -661,8 +668,8 @@ func (r *Run) sessionScopedFields() {
 			assignsOf := func(fv *types.Var) []*Func {
 				var out []*Func
 				for _, fn := range r.P.All {
-					if fn.Pkg.Types != pk.Types {
-						continue
+					if fn.Pkg.Types != pk.Types && fv.Pkg() != fn.Pkg.Types {
+						continue // (the struct's package, or the package of the part that declares the field)
 					}
 					found := false
 					ast.Inspect(fn.Body, func(nd ast.Node) bool {
@@ -707,8 +714,7 @@ func (r *Run) sessionScopedFields() {
 				}
 				assigners[f] = true
 			}
-			for i := 0; i < st.NumFields(); i++ {
-				fv := st.Field(i)
+			for _, fv := range fields {
 				if fv == sessField || fv.Embedded() {
 					continue
 				}
